@@ -11,15 +11,14 @@ Import ListNotations.
    digit string p (unbounded), [ms_ns p] = dec_value p * 10^6. *)
 
 (* ByteToBase10 fails exactly on strings containing a non-digit ... *)
-Theorem C04_b10_error_iff : forall p, byte_to_base10 p = None <-> all_digits p = false.
-Proof. exact b10_none_iff. Qed.
-Print Assumptions C04_b10_error_iff.
+Theorem C04_b10_spec :
+  (forall p, byte_to_base10 p = None <-> all_digits p = false) /\
+  (forall p, all_digits p = true ->
+  byte_to_base10 p = Some (N.min (dec_value p) max_u64)).
+Proof. exact (conj (b10_none_iff) (b10_digits)). Qed.
+Print Assumptions C04_b10_spec.
 
 (* ... and otherwise yields the value, saturated at 2^64-1 (never wrapped) *)
-Theorem C04_b10_value : forall p, all_digits p = true ->
-  byte_to_base10 p = Some (N.min (dec_value p) max_u64).
-Proof. exact b10_digits. Qed.
-Print Assumptions C04_b10_value.
 
 (* REQ uses min(value, max-req-timeout): any length, any number of leading zeros,
    values beyond 2^64 included *)
@@ -76,57 +75,64 @@ Proof. vm_compute. repeat split; discriminate. Qed.
 Print Assumptions C04_defaults_in_range.
 
 (* IDENTIFY msg_timeout: accepted iff 0 (keep the default) or 1000 <= v and v ms <= max *)
-Theorem C04_msg_timeout_range : forall max_msg cur v,
+Theorem C04_msg_timeout :
+  (forall max_msg cur v,
   (exists t, set_msg_timeout max_msg cur v = Some t) <->
-  (v = 0 \/ (1000 <= v /\ v * 1000000 <= max_msg))%Z.
-Proof. exact set_msg_timeout_accept_iff. Qed.
-Print Assumptions C04_msg_timeout_range.
+  (v = 0 \/ (1000 <= v /\ v * 1000000 <= max_msg))%Z) /\
+  (forall max_msg cur v t,
+  (0 <= cur <= max_msg)%Z -> set_msg_timeout max_msg cur v = Some t -> (0 <= t <= max_msg)%Z).
+Proof. exact (conj (set_msg_timeout_accept_iff) (set_msg_timeout_bounded)). Qed.
+Print Assumptions C04_msg_timeout.
 
-Theorem C04_msg_timeout_bounded : forall max_msg cur v t,
-  (0 <= cur <= max_msg)%Z -> set_msg_timeout max_msg cur v = Some t -> (0 <= t <= max_msg)%Z.
-Proof. exact set_msg_timeout_bounded. Qed.
-Print Assumptions C04_msg_timeout_bounded.
 
 (* ================================================================== TOUCH *)
 (* the deadline after delivery and ANY sequence of TOUCHes never exceeds
    deliveryTS + max-msg-timeout ... *)
-Theorem C04_touch_cap : forall delivery timeout max_msg touches,
+Theorem C04_touch_deadline :
+  (forall delivery timeout max_msg touches,
   (timeout <= max_msg)%Z ->
-  (deadline_after delivery timeout max_msg touches <= delivery + max_msg)%Z.
-Proof. exact touch_cap_any_sequence. Qed.
-Print Assumptions C04_touch_cap.
-
-(* ... and is exactly delivery + timeout, re-based by the last TOUCH to
-   min(t_touch + msg_timeout, delivery + max-msg-timeout): never earlier *)
-Theorem C04_deadline_spec : forall delivery timeout max_msg touches,
+  (deadline_after delivery timeout max_msg touches <= delivery + max_msg)%Z) /\
+  (forall delivery timeout max_msg touches,
   deadline_after delivery timeout max_msg touches =
     match rev touches with
     | [] => (delivery + timeout)%Z
     | (now, mt) :: _ => Z.min (now + mt) (delivery + max_msg)
-    end.
-Proof. exact deadline_after_spec. Qed.
-Print Assumptions C04_deadline_spec.
+    end).
+Proof. exact (conj (touch_cap_any_sequence) (deadline_after_spec)). Qed.
+Print Assumptions C04_touch_deadline.
+
+(* ... and is exactly delivery + timeout, re-based by the last TOUCH to
+   min(t_touch + msg_timeout, delivery + max-msg-timeout): never earlier *)
 
 (* ================================================================== the heaps *)
 (* heap order and index back-pointers are preserved by every operation of both queues *)
-Theorem C04_push_wf : forall q p v q', hwf q -> if_push q p v = Some q' ->
-  hwf q' /\ Permutation (keys (arr q')) ((p, v) :: keys (arr q)).
-Proof. exact if_push_wf. Qed.
-Print Assumptions C04_push_wf.
+Theorem C04_push_wf_both :
+  (forall q p v q', hwf q -> if_push q p v = Some q' ->
+  hwf q' /\ Permutation (keys (arr q')) ((p, v) :: keys (arr q))) /\
+  (forall q p v q', hwf q -> ch_push q p v = Some q' ->
+  hwf q' /\ Permutation (keys (arr q')) ((p, v) :: keys (arr q))).
+Proof. exact (conj (if_push_wf) (ch_push_wf)). Qed.
+Print Assumptions C04_push_wf_both.
 Theorem C04_push_never_panics : forall q p v, cap_ok q ->
   exists q', if_push q p v = Some q' /\ cap_ok q'.
 Proof. exact if_push_total. Qed.
 Print Assumptions C04_push_never_panics.
-Theorem C04_pop_wf : forall q x q', hwf q -> if_pop q = Some (x, q') ->
-  hwf q' /\ removed q 0 x q' /\ (forall k, (k < length (arr q))%nat -> (pri x <= P (arr q) k)%Z).
-Proof. exact if_pop_wf. Qed.
-Print Assumptions C04_pop_wf.
+Theorem C04_pop_wf_both :
+  (forall q x q', hwf q -> if_pop q = Some (x, q') ->
+  hwf q' /\ removed q 0 x q' /\ (forall k, (k < length (arr q))%nat -> (pri x <= P (arr q) k)%Z)) /\
+  (forall q x q', hwf q -> ch_pop q = Some (x, q') ->
+  hwf q' /\ removed q 0 x q' /\ (forall k, (k < length (arr q))%nat -> (pri x <= P (arr q) k)%Z)).
+Proof. exact (conj (if_pop_wf) (ch_pop_wf)). Qed.
+Print Assumptions C04_pop_wf_both.
 (* Remove(index m) removes exactly m: what comes out is the entry at that index, its
    back-pointer is reset, and the multiset of the rest is unchanged *)
-Theorem C04_remove_wf : forall q i x q', hwf q -> if_remove q i = Some (x, q') ->
-  hwf q' /\ removed q (Z.to_nat i) x q'.
-Proof. exact if_remove_wf. Qed.
-Print Assumptions C04_remove_wf.
+Theorem C04_remove_wf_both :
+  (forall q i x q', hwf q -> if_remove q i = Some (x, q') ->
+  hwf q' /\ removed q (Z.to_nat i) x q') /\
+  (forall q i x q', hwf q -> ch_remove q i = Some (x, q') ->
+  hwf q' /\ removed q (Z.to_nat i) x q').
+Proof. exact (conj (if_remove_wf) (ch_remove_wf)). Qed.
+Print Assumptions C04_remove_wf_both.
 Theorem C04_remove_exact : forall q i x q', (i < length (arr q))%nat -> removed q i x q' ->
   Permutation (keys (arr q')) (firstn i (keys (arr q)) ++ skipn (S i) (keys (arr q))).
 Proof. exact removed_rest. Qed.
@@ -136,84 +142,67 @@ Theorem C04_remove_defined : forall q i,
 Proof. exact if_remove_defined. Qed.
 Print Assumptions C04_remove_defined.
 (* the container/heap driven deferred queue *)
-Theorem C04_deferred_push_wf : forall q p v q', hwf q -> ch_push q p v = Some q' ->
-  hwf q' /\ Permutation (keys (arr q')) ((p, v) :: keys (arr q)).
-Proof. exact ch_push_wf. Qed.
-Print Assumptions C04_deferred_push_wf.
-Theorem C04_deferred_pop_wf : forall q x q', hwf q -> ch_pop q = Some (x, q') ->
-  hwf q' /\ removed q 0 x q' /\ (forall k, (k < length (arr q))%nat -> (pri x <= P (arr q) k)%Z).
-Proof. exact ch_pop_wf. Qed.
-Print Assumptions C04_deferred_pop_wf.
-Theorem C04_deferred_remove_wf : forall q i x q', hwf q -> ch_remove q i = Some (x, q') ->
-  hwf q' /\ removed q (Z.to_nat i) x q'.
-Proof. exact ch_remove_wf. Qed.
-Print Assumptions C04_deferred_remove_wf.
 
 (* ================================================================== never early *)
 (* PeekAndShift(t) hands out an entry only if its priority is <= t, and that entry is the
    one that leaves the queue -- for ANY array content, well-formed or not *)
-Theorem C04_never_early_inflight : forall q t x q', if_peek q t = (PeekSome x, q') ->
-  (pri x <= t)%Z /\ removed q 0 x q'.
-Proof. exact if_peek_never_early. Qed.
-Print Assumptions C04_never_early_inflight.
-Theorem C04_never_early_deferred : forall q t x q', ch_peek q t = (PeekSome x, q') ->
-  (pri x <= t)%Z /\ removed q 0 x q'.
-Proof. exact ch_peek_never_early. Qed.
-Print Assumptions C04_never_early_deferred.
+Theorem C04_never_early_peek :
+  (forall q t x q', if_peek q t = (PeekSome x, q') ->
+  (pri x <= t)%Z /\ removed q 0 x q') /\
+  (forall q t x q', ch_peek q t = (PeekSome x, q') ->
+  (pri x <= t)%Z /\ removed q 0 x q').
+Proof. exact (conj (if_peek_never_early) (ch_peek_never_early)). Qed.
+Print Assumptions C04_never_early_peek.
 (* hence everything a scan at t releases was due, whatever the queue looked like *)
-Theorem C04_never_early_scan_inflight : forall q t out q',
-  if_scan q t = (out, q') -> Forall (fun x => (pri x <= t)%Z) out.
-Proof. exact if_scan_never_early. Qed.
-Print Assumptions C04_never_early_scan_inflight.
-Theorem C04_never_early_scan_deferred : forall q t out q',
-  ch_scan q t = (out, q') -> Forall (fun x => (pri x <= t)%Z) out.
-Proof. exact ch_scan_never_early. Qed.
-Print Assumptions C04_never_early_scan_deferred.
+Theorem C04_never_early_scan :
+  (forall q t out q',
+  if_scan q t = (out, q') -> Forall (fun x => (pri x <= t)%Z) out) /\
+  (forall q t out q',
+  ch_scan q t = (out, q') -> Forall (fun x => (pri x <= t)%Z) out).
+Proof. exact (conj (if_scan_never_early) (ch_scan_never_early)). Qed.
+Print Assumptions C04_never_early_scan.
 
 (* ================================================================== boundedly late *)
 (* on a well-formed heap PeekAndShift(t) returns an entry whenever one is due, and it is
    a minimum *)
-Theorem C04_peek_due_inflight : forall q t k, hwf q ->
-  (k < length (arr q))%nat -> (P (arr q) k <= t)%Z -> exists x q', if_peek q t = (PeekSome x, q').
-Proof. exact (peek_due if_peek if_peek_spec). Qed.
-Print Assumptions C04_peek_due_inflight.
-Theorem C04_peek_due_deferred : forall q t k, hwf q ->
-  (k < length (arr q))%nat -> (P (arr q) k <= t)%Z -> exists x q', ch_peek q t = (PeekSome x, q').
-Proof. exact (peek_due ch_peek ch_peek_spec). Qed.
-Print Assumptions C04_peek_due_deferred.
-Theorem C04_peek_min_inflight : forall q t, hwf q ->
+Theorem C04_peek_due :
+  (forall q t k, hwf q ->
+  (k < length (arr q))%nat -> (P (arr q) k <= t)%Z -> exists x q', if_peek q t = (PeekSome x, q')) /\
+  (forall q t k, hwf q ->
+  (k < length (arr q))%nat -> (P (arr q) k <= t)%Z -> exists x q', ch_peek q t = (PeekSome x, q')).
+Proof. exact (conj ((peek_due if_peek if_peek_spec)) ((peek_due ch_peek ch_peek_spec))). Qed.
+Print Assumptions C04_peek_due.
+Theorem C04_peek_min :
+  (forall q t, hwf q ->
   match if_peek q t with
   | (PeekNone _, q') => q' = q /\ forall k, (k < length (arr q))%nat -> (t < P (arr q) k)%Z
   | (PeekSome x, q') => hwf q' /\ forall k, (k < length (arr q))%nat -> (pri x <= P (arr q) k)%Z
-  end.
-Proof. exact if_peek_spec. Qed.
-Print Assumptions C04_peek_min_inflight.
-Theorem C04_peek_min_deferred : forall q t, hwf q ->
+  end) /\
+  (forall q t, hwf q ->
   match ch_peek q t with
   | (PeekNone _, q') => q' = q /\ forall k, (k < length (arr q))%nat -> (t < P (arr q) k)%Z
   | (PeekSome x, q') => hwf q' /\ forall k, (k < length (arr q))%nat -> (pri x <= P (arr q) k)%Z
-  end.
-Proof. exact ch_peek_spec. Qed.
-Print Assumptions C04_peek_min_deferred.
+  end).
+Proof. exact (conj (if_peek_spec) (ch_peek_spec)). Qed.
+Print Assumptions C04_peek_min.
 
 (* scan-complete: one scan at t (processInFlightQueue / processDeferredQueue, queue side)
    releases EXACTLY the entries with priority <= t, earliest first, and leaves a
    well-formed heap of exactly the others.  So an entry is late by at most the interval
    between two scans of its channel. *)
-Theorem C04_scan_complete_inflight : forall q t out q', hwf q -> if_scan q t = (out, q') ->
+Theorem C04_scan_complete :
+  (forall q t out q', hwf q -> if_scan q t = (out, q') ->
   Permutation (keys out) (filter (due t) (keys (arr q))) /\
   Permutation (keys (arr q')) (filter (not_due t) (keys (arr q))) /\
   hwf q' /\ Forall (fun x => idx x = (-1)%Z) out /\
-  (forall lo, (forall k, (k < length (arr q))%nat -> (lo <= P (arr q) k)%Z) -> sorted_from lo out).
-Proof. exact if_scan_complete. Qed.
-Print Assumptions C04_scan_complete_inflight.
-Theorem C04_scan_complete_deferred : forall q t out q', hwf q -> ch_scan q t = (out, q') ->
+  (forall lo, (forall k, (k < length (arr q))%nat -> (lo <= P (arr q) k)%Z) -> sorted_from lo out)) /\
+  (forall q t out q', hwf q -> ch_scan q t = (out, q') ->
   Permutation (keys out) (filter (due t) (keys (arr q))) /\
   Permutation (keys (arr q')) (filter (not_due t) (keys (arr q))) /\
   hwf q' /\ Forall (fun x => idx x = (-1)%Z) out /\
-  (forall lo, (forall k, (k < length (arr q))%nat -> (lo <= P (arr q) k)%Z) -> sorted_from lo out).
-Proof. exact ch_scan_complete. Qed.
-Print Assumptions C04_scan_complete_deferred.
+  (forall lo, (forall k, (k < length (arr q))%nat -> (lo <= P (arr q) k)%Z) -> sorted_from lo out)).
+Proof. exact (conj (if_scan_complete) (ch_scan_complete)). Qed.
+Print Assumptions C04_scan_complete.
 
 (* ================================================================== the channel machine
    (StartInFlightTimeout / TouchMessage / FinishMessage / RequeueMessage /
@@ -236,28 +225,26 @@ Proof. exact reachable_capped. Qed.
 Print Assumptions C04_touch_cap_every_history.
 
 (* the deadline an operation sets *)
-Theorem C04_start_sets_deadline : forall max_msg c now id cl timeout c', Inv c ->
+Theorem C04_inflight_sets_deadline :
+  (forall max_msg c now id cl timeout c', Inv c ->
   step max_msg c (StartInFlight now id cl timeout) = (c', Ok) ->
-  In ((now + timeout)%Z, id) (keys (arr (c_ifq c'))) /\ In (mkMsg id cl now) (c_inflight c').
-Proof. exact start_sets_deadline. Qed.
-Print Assumptions C04_start_sets_deadline.
-Theorem C04_touch_sets_deadline : forall max_msg c now id cl mt c', Inv c ->
+  In ((now + timeout)%Z, id) (keys (arr (c_ifq c'))) /\ In (mkMsg id cl now) (c_inflight c')) /\
+  (forall max_msg c now id cl mt c', Inv c ->
   step max_msg c (Touch now id cl mt) = (c', Ok) ->
   exists m, find_msg id (c_inflight c) = Some m /\ m_client m = cl /\
     In (Z.min (now + mt) (m_delivery m + max_msg), id) (keys (arr (c_ifq c'))) /\
-    In m (c_inflight c').
-Proof. exact touch_sets_deadline. Qed.
-Print Assumptions C04_touch_sets_deadline.
-Theorem C04_putdef_sets_deadline : forall max_msg c now id delay c', Inv c ->
+    In m (c_inflight c')).
+Proof. exact (conj (start_sets_deadline) (touch_sets_deadline)). Qed.
+Print Assumptions C04_inflight_sets_deadline.
+Theorem C04_deferred_sets_deadline :
+  (forall max_msg c now id delay c', Inv c ->
   step max_msg c (PutDeferred now id delay) = (c', Ok) ->
-  In ((now + delay)%Z, id) (keys (arr (c_dfq c'))).
-Proof. exact putdef_sets_deadline. Qed.
-Print Assumptions C04_putdef_sets_deadline.
-Theorem C04_requeue_sets_deadline : forall max_msg c now id cl delay c', Inv c -> delay <> 0%Z ->
+  In ((now + delay)%Z, id) (keys (arr (c_dfq c')))) /\
+  (forall max_msg c now id cl delay c', Inv c -> delay <> 0%Z ->
   step max_msg c (Requeue now id cl delay) = (c', Ok) ->
-  In ((now + delay)%Z, id) (keys (arr (c_dfq c'))).
-Proof. exact requeue_sets_deadline. Qed.
-Print Assumptions C04_requeue_sets_deadline.
+  In ((now + delay)%Z, id) (keys (arr (c_dfq c')))).
+Proof. exact (conj (putdef_sets_deadline) (requeue_sets_deadline)). Qed.
+Print Assumptions C04_deferred_sets_deadline.
 (* ... and it is the only entry for that id *)
 Theorem C04_unique_deadline : forall q p p' id, NoDup (vals q) ->
   In (p, id) (keys (arr q)) -> In (p', id) (keys (arr q)) -> p = p'.
@@ -265,45 +252,42 @@ Proof. exact unique_deadline. Qed.
 Print Assumptions C04_unique_deadline.
 
 (* never early at the channel, in ANY state: whatever a scan at t releases had deadline <= t *)
-Theorem C04_never_early_channel_inflight : forall f mp q t,
+Theorem C04_never_early_channel :
+  (forall f mp q t,
   let '(_, _, ids) := scan_inflight f mp q t in
-  forall id, In id ids -> exists p, In (p, id) (keys (arr q)) /\ (p <= t)%Z.
-Proof. exact scan_inflight_never_early. Qed.
-Print Assumptions C04_never_early_channel_inflight.
-Theorem C04_never_early_channel_deferred : forall f mp q t,
+  forall id, In id ids -> exists p, In (p, id) (keys (arr q)) /\ (p <= t)%Z) /\
+  (forall f mp q t,
   let '(_, _, ids) := scan_deferred f mp q t in
-  forall id, In id ids -> exists p, In (p, id) (keys (arr q)) /\ (p <= t)%Z.
-Proof. exact scan_deferred_never_early. Qed.
-Print Assumptions C04_never_early_channel_deferred.
+  forall id, In id ids -> exists p, In (p, id) (keys (arr q)) /\ (p <= t)%Z).
+Proof. exact (conj (scan_inflight_never_early) (scan_deferred_never_early)). Qed.
+Print Assumptions C04_never_early_channel.
 
 (* boundedly late at the channel: in every state satisfying the invariant (every reachable
    state) a scan at t releases EXACTLY the messages whose deadline is <= t; exactly the
    others stay in flight / deferred *)
-Theorem C04_scan_exact_inflight : forall max_msg c t, Inv c ->
+Theorem C04_scan_exact :
+  (forall max_msg c t, Inv c ->
   exists ids, snd (step max_msg c (ScanInFlight t)) = Ready ids /\
   let c' := fst (step max_msg c (ScanInFlight t)) in
   Permutation ids (map snd (filter (due t) (keys (arr (c_ifq c))))) /\
   Permutation (keys (arr (c_ifq c'))) (filter (not_due t) (keys (arr (c_ifq c)))) /\
-  Permutation (ids_if (c_inflight c')) (map snd (filter (not_due t) (keys (arr (c_ifq c))))).
-Proof. exact scan_inflight_exact. Qed.
-Print Assumptions C04_scan_exact_inflight.
-Theorem C04_scan_exact_deferred : forall max_msg c t, Inv c ->
+  Permutation (ids_if (c_inflight c')) (map snd (filter (not_due t) (keys (arr (c_ifq c)))))) /\
+  (forall max_msg c t, Inv c ->
   exists ids, snd (step max_msg c (ScanDeferred t)) = Ready ids /\
   let c' := fst (step max_msg c (ScanDeferred t)) in
   Permutation ids (map snd (filter (due t) (keys (arr (c_dfq c))))) /\
   Permutation (keys (arr (c_dfq c'))) (filter (not_due t) (keys (arr (c_dfq c)))) /\
-  Permutation (c_deferred c') (map snd (filter (not_due t) (keys (arr (c_dfq c))))).
-Proof. exact scan_deferred_exact. Qed.
-Print Assumptions C04_scan_exact_deferred.
+  Permutation (c_deferred c') (map snd (filter (not_due t) (keys (arr (c_dfq c)))))).
+Proof. exact (conj (scan_inflight_exact) (scan_deferred_exact)). Qed.
+Print Assumptions C04_scan_exact.
 
 (* the fuel given to up/down by every caller is never the reason a loop stops *)
-Theorem C04_up_fuel : forall f1 f2 l j, (j <= f1)%nat -> (j <= f2)%nat -> up f1 l j = up f2 l j.
-Proof. exact up_fuel_irrelevant. Qed.
-Print Assumptions C04_up_fuel.
-Theorem C04_down_fuel : forall ch f1 f2 l i n, (n - i <= f1)%nat -> (n - i <= f2)%nat ->
-  down ch f1 l i n = down ch f2 l i n.
-Proof. exact down_fuel_irrelevant. Qed.
-Print Assumptions C04_down_fuel.
+Theorem C04_fuel_irrelevant :
+  (forall f1 f2 l j, (j <= f1)%nat -> (j <= f2)%nat -> up f1 l j = up f2 l j) /\
+  (forall ch f1 f2 l i n, (n - i <= f1)%nat -> (n - i <= f2)%nat ->
+  down ch f1 l i n = down ch f2 l i n).
+Proof. exact (conj (up_fuel_irrelevant) (down_fuel_irrelevant)). Qed.
+Print Assumptions C04_fuel_irrelevant.
 
 (* ================================================================== non-vacuity *)
 Open Scope Z_scope.
